@@ -31,6 +31,79 @@ def select(prop, rec):
     return bool(ks & {"or", "then", "not"})
 
 
+def head_cut_scenarios():
+    """cuts combined with head unification: clauses whose heads repeat variables, contain constants or
+    structures, with a neck cut / cut-fail / cut after a goal, followed by further clauses"""
+    import itertools
+    from ..terms import A, I, V, C, lst, clause, call, and_, conj, TRUE, FAIL, CUT
+    X, Y = V(0), V(1)
+    heads = [lambda: (X, X), lambda: (X, Y), lambda: (A("a"), X), lambda: (C("f", X), X), lambda: (X, C("f", X)), lambda: (lst([X], Y), X), lambda: (V(900), V(901))]
+    bodies = [CUT, conj(CUT, FAIL), conj(call(C("q", X)), CUT), conj(CUT, call(C("q", Y))), conj(call(C("=", X, A("a"))), CUT), TRUE]
+    scns = []
+    for (h1, b1), h2 in itertools.product(itertools.product(heads, bodies), heads[:5]):
+        a1, a2 = h1(), h2()
+        cls = [clause(C("d", *a1), b1), clause(C("d", *a2), call(C("=", V(5), A("second")))), clause(C("d", V(900), V(901)))]
+        script = {"d/2": cls, "q/1": [clause(C("q", A("a"))), clause(C("q", A("b")))],
+                  "outer/2": [clause(C("outer", X, Y), conj(call(C("q", X)), call(C("d", X, Y))))]}
+        steps = [[{"op": "load", "e": 1, "script": "P", "ow": True}]]
+        qs = [([V(0), V(1)], 2), ([I(1), I(2)], 0), ([A("a"), A("a")], 0), ([A("a"), V(0)], 1), ([C("f", A("b")), A("b")], 0), ([V(0), V(0)], 1), ([lst([A("a")]), V(0)], 1)]
+        for i, (qa, qnv) in enumerate(qs):
+            steps.append([{"op": "solve", "e": 1, "r": i + 1, "goal": C("d", *qa), "qnv": qnv, "k": 0}])
+        steps.append([{"op": "solve", "e": 1, "r": 50, "goal": C("outer", V(0), V(1)), "qnv": 2, "k": 0}])
+        scns.append({"scripts": {"P": script}, "steps": steps})
+    return scns
+
+
+def identity_shapes(rnd, n):
+    """contexts in which a tempting algebraic simplification changes the meaning: A ; fail, fail ; A,
+    A , true, (C -> T ; fail) ; E, not not A, ((A ; B) ; C), ((A , B) , C) ... around small bodies with
+    generators and tests on shared variables"""
+    from ..terms import A, I, V, C, clause, call, and_, or_, then, not_, conj, TRUE, FAIL, CUT
+    X, Y, R = V(0), V(1), V(2)
+
+    def atom_goal():
+        r = rnd.random()
+        v = X if rnd.random() < 0.6 else Y
+        if r < 0.35:
+            return call(C("g", v))
+        if r < 0.7:
+            return call(C(rnd.choice(["t1", "t12", "t23", "t3"]), v))
+        if r < 0.8:
+            return call(C("=", R, A("m%d" % rnd.randint(1, 9))))
+        return rnd.choice([TRUE, FAIL, call(C("none", v))])
+
+    def small():
+        r = rnd.random()
+        if r < 0.3:
+            return atom_goal()
+        if r < 0.5:
+            return and_(atom_goal(), atom_goal())
+        if r < 0.65:
+            return or_(atom_goal(), atom_goal())
+        if r < 0.85:
+            return then(atom_goal(), atom_goal())
+        return not_(atom_goal())
+    ctxs = [lambda a, b, c: or_(or_(a, FAIL), b), lambda a, b, c: or_(or_(then(a, b), FAIL), c), lambda a, b, c: or_(FAIL, or_(then(a, b), c)),
+            lambda a, b, c: and_(and_(a, TRUE), b), lambda a, b, c: and_(and_(a, b), c), lambda a, b, c: or_(or_(a, b), c),
+            lambda a, b, c: not_(not_(a)), lambda a, b, c: and_(not_(not_(a)), b), lambda a, b, c: or_(then(not_(a), b), c),
+            lambda a, b, c: or_(then(or_(then(a, b), FAIL), c), a), lambda a, b, c: then(then(a, b), c), lambda a, b, c: or_(then(a, TRUE), FAIL),
+            lambda a, b, c: or_(then(a, or_(then(b, c), FAIL)), c), lambda a, b, c: and_(or_(then(a, b), TRUE), c), lambda a, b, c: or_(and_(TRUE, then(a, b)), c),
+            lambda a, b, c: and_(or_(and_(a, CUT), b), c), lambda a, b, c: or_(then(a, and_(b, CUT)), c)]
+    scns = []
+    tests = {"t1": [1], "t12": [1, 2], "t23": [2, 3], "t3": [3]}
+    for i in range(n):
+        body = ctxs[i % len(ctxs)](small(), small(), small())
+        if rnd.random() < 0.5:
+            body = and_(call(C("g", X)), body)
+        script = {"g/1": [clause(C("g", I(k))) for k in (1, 2, 3)],
+                  "t/3": [{"h": C("t", X, Y, R), "body": body, "nv": 3}, clause(C("t", A("z"), A("z"), A("z")))]}
+        for nme, vals in tests.items():
+            script[nme + "/1"] = [clause(C(nme, I(k))) for k in vals]
+        scns.append({"scripts": {"P": script}, "steps": [[{"op": "load", "e": 1, "script": "P", "ow": True}],
+                                                      [{"op": "solve", "e": 1, "r": 1, "goal": C("t", V(0), V(1), V(2)), "qnv": 3, "k": 0}]], "keys": []})
+    return scns
+
+
 def run_bodies(prop, tier, seed):
     chk = Check(prop, tier, seed)
     rnd = random.Random(seed)
@@ -65,6 +138,13 @@ def run_bodies(prop, tier, seed):
         dd = [s for s in dd if "cut" in bodies.kinds(s["scripts"]["P"]["t/3"][0]["body"])][: n // 2]
     for i in range(0, len(dd), 5000):
         chk.machine_family("data-dependent-bodies-%d" % (i // 5000), dd[i:i + 5000], props=("CleanAfterEnd", "BarriersOK"), features=features, opts_list=MODES)
+    if prop == "C05":
+        chk.machine_family("heads-with-cuts", head_cut_scenarios(), props=("CleanAfterEnd", "BarriersOK"), features=features)
+    sh = identity_shapes(rnd, 1200 if tier == "quick" else 12000)
+    if prop == "C05":
+        sh = [s for s in sh if "cut" in bodies.kinds(s["scripts"]["P"]["t/3"][0]["body"])]
+    for i in range(0, len(sh), 5000):
+        chk.machine_family("identity-shapes-%d" % (i // 5000), sh[i:i + 5000], props=("CleanAfterEnd", "BarriersOK"), features=features, opts_list=MODES)
     chk.exhaustive = (tier == "thorough")
     need = ["DoCut", "DoConj", "DoCallClause"] + (["DoDisj", "DoIte", "DoNot", "DoCommit"] if prop == "C06" else [])
     missing = [e for e in need if not chk.events.get(e)]
